@@ -64,6 +64,7 @@ class Repo:
         if not os.path.isdir(self.pkgdir):
             raise AnalysisError(f"package directory not found: {self.pkgdir}")
         self.modules: Dict[str, Module] = {}
+        self.norm_stats: Dict[str, dict] = {}
         for fn in sorted(os.listdir(self.pkgdir)):
             if fn.endswith(".py"):
                 self._load(os.path.join(self.pkgdir, fn), fn[:-3])
@@ -88,6 +89,10 @@ class Repo:
         except (SyntaxError, UnicodeDecodeError) as e:
             raise AnalysisError(f"cannot parse {path}: {e}")
         _strip_noops(tree)
+        if not name.startswith("scripts/") and os.environ.get("VERIF_NO_NORMALISE") != "1":
+            from .normalise import normalise
+
+            normalise(tree, name, self.norm_stats.setdefault(name, {}))
         rel = os.path.relpath(path, self.root)
         mod = Module(name, path, rel, src, tree, hashlib.sha256(raw).hexdigest()[:16])
         self._index(mod)
